@@ -495,8 +495,38 @@ from typing import Dict, List, Literal, Optional, Set, Tuple, Union  # noqa: E40
 
 from jsonargparse import ActionConfigFile, ArgumentParser, Namespace  # noqa: E402
 
+import datetime  # noqa: E402
+import pathlib  # noqa: E402
+import uuid  # noqa: E402
+
 _ENUMS: dict = {}
 _DCS: dict = {}
+# registered types whose serializer is str() (jsonargparse/typing.py:385-412); a value is identified by str(value)
+REG = {"Rpath": pathlib.Path, "Rtd": datetime.timedelta, "Ruuid": uuid.UUID, "Rcomplex": complex}
+
+
+def g_reg(name: str, text: str):
+    if name == "Rpath":
+        return pathlib.Path(text)
+    if name == "Rtd":
+        from jsonargparse.typing import timedelta_deserializer
+
+        return timedelta_deserializer(text)
+    if name == "Ruuid":
+        return uuid.UUID(text)
+    return complex(text)
+
+
+def reg_name(v):
+    if isinstance(v, pathlib.PurePath):
+        return "Rpath"
+    if isinstance(v, datetime.timedelta):
+        return "Rtd"
+    if isinstance(v, uuid.UUID):
+        return "Ruuid"
+    if isinstance(v, complex):
+        return "Rcomplex"
+    return None
 
 
 def T_(c, p=()):
@@ -526,6 +556,8 @@ def g_scalar(v):
         return txt(v["v"]) == "true"
     if k == "null":
         return None
+    if k == "reg":
+        return g_reg(v["v"][0], txt(v["v"][1:]))
     raise ValueError(f"not a scalar: {v}")
 
 
@@ -540,6 +572,8 @@ def g_tree(x):
         return {txt(a): g_tree(b) for a, b in x["v"]}
     if k == "enum":
         return txt(x["v"])
+    if k == "reg":
+        return txt(x["v"][1:])
     return g_scalar(x)
 
 
@@ -586,6 +620,8 @@ def g_type(t):
         return Dict[g_type(p[0]), g_type(p[1])]
     if c == "dc":
         return g_dc(p)
+    if c == "reg":
+        return REG[p[0]]
     raise ValueError(f"unknown type term {t}")
 
 
@@ -600,6 +636,9 @@ def a_type(T):
         return T_(T.__name__)
     if T is type(None):
         return T_("none")
+    for name, cls in REG.items():
+        if T is cls:
+            return T_("reg", [name])
     if isinstance(T, type) and issubclass(T, enum.Enum):
         return T_("enum", [syms(m) for m in T.__members__])
     if dataclasses.is_dataclass(T):
@@ -673,6 +712,8 @@ def a_value(v) -> dict:
         return {"k": "int", "v": list(str(v))}
     if isinstance(v, float):
         return a_float(v)
+    if reg_name(v):
+        return {"k": "reg", "v": [reg_name(v)] + syms(str(v))}
     if isinstance(v, str):
         return {"k": "str", "v": syms(v)}
     if isinstance(v, list):
@@ -1059,6 +1100,8 @@ def show_type(t) -> str:
         return "Literal[" + ",".join(repr(g_scalar(v)) for v in p) + "]"
     if c == "dc":
         return "dataclass(" + ",".join(f"{txt(n)}:{show_type(ft)}" for n, ft, _ in p) + ")"
+    if c == "reg":
+        return REG[p[0]].__name__
     if not p:
         return c
     return c + "[" + ",".join(show_type(m) for m in p) + "]"
@@ -1074,6 +1117,8 @@ def show_value(v) -> str:
             return "Namespace(" + ", ".join(f"{txt(a)}={show_value(b)}" for a, b in v["v"]) + ")"
         if v["k"] == "enum":
             return "<" + txt(v["v"]) + ">"
+        if v["k"] == "reg":
+            return REG[v["v"][0]].__name__ + "(" + repr(txt(v["v"][1:])) + ")"
         if v["k"] in ("list", "tuple", "set"):
             return v["k"] + "(" + ", ".join(show_value(e) for e in v["v"]) + ")"
         if v["k"] == "dict":
@@ -1349,9 +1394,18 @@ def _strategies():
     simple_field_t = st.one_of(st.sampled_from([T_("str"), T_("int"), T_("float"), T_("bool")]), st.sampled_from([T_("str"), T_("int")]).map(lambda t: T_("union", [t, T_("none")])),
                                st.just(T_("list", [T_("int")])))
 
+    REG_TEXTS = {"Rpath": ["/x", "a/b", "None", "rel/file.txt", "1e3", "x y", "1:30"], "Rtd": ["0:00:01", "1:02:03", "23:59:59"],
+                 "Ruuid": ["12345678-1234-5678-1234-567812345678", "00000000-0000-0000-0000-000000000000"], "Rcomplex": ["(1+2j)", "3j", "(-4-5j)"]}
+    reg_t = st.sampled_from(sorted(REG)).map(lambda n: T_("reg", [n]))
+    reg_shapes = reg_t.flatmap(lambda r: st.sampled_from([
+        T_("list", [T_("union", [r, T_("none")])]), T_("dict", [T_("str"), T_("union", [r, T_("none")])]), T_("tuple", [T_("union", [r, T_("none")]), T_("int")]),
+        T_("union", [r, T_("none")]), T_("list", [r]), T_("tuplee", [T_("union", [r, T_("none")])]), T_("list", [T_("list", [T_("union", [r, T_("none")])])]),
+        T_("dict", [T_("str"), T_("list", [T_("union", [r, T_("none")])])])]))
+
     def extend(child):
         nonunion = child.filter(lambda t: t["c"] not in ("union", "none"))
         return st.one_of(
+            reg_shapes,
             nonunion.map(lambda t: T_("union", [t, T_("none")])),
             st.lists(nonunion, min_size=2, max_size=3, unique_by=lambda t: t["c"]).map(lambda ts: T_("union", ts)),
             st.tuples(st.lists(nonunion, min_size=2, max_size=2, unique_by=lambda t: t["c"]), st.just(T_("none"))).map(lambda p: T_("union", p[0] + [p[1]])),
@@ -1366,6 +1420,8 @@ def _strategies():
     types = st.recursive(leaf_t, extend, max_leaves=6)
 
     def depth(t):
+        if t["c"] == "reg":
+            return 0
         if t["c"] == "dc":
             return 1 + max([depth(f[1]) for f in t["p"]] + [0])
         if t["c"] in ("enum", "literal") or not t["p"]:
@@ -1389,6 +1445,8 @@ def _strategies():
             return st.booleans().map(lambda b: V_("bool", "true" if b else "false"))
         if c == "none":
             return st.just(dict(NULLREC))
+        if c == "reg":
+            return st.sampled_from(REG_TEXTS[p[0]]).map(lambda s: V_("str", s))
         if c == "enum":
             return st.sampled_from(p).map(lambda n: {"k": "str", "v": n})
         if c == "literal":
@@ -1570,23 +1628,11 @@ def dump_traces(rep: Report, tier: str, tmp, rec: "DumpRecorder", leaf_cases, ra
 
 
 # ---------------------------------------------------------------- main
-def _merge_own_findings(rep: Report) -> None:
-    """tools/findings.d/C01.json is the source of known_findings.json (tools/gen_manifest.py); until the maintainer
-    regenerates the latter, read the fragment directly so that the check of the unchanged tree exits 0."""
-    frag = common.VERIF / "tools" / "findings.d" / f"{PID}.json"
-    if frag.exists():
-        have = {k["key"] for k in rep._known}
-        for e in json.loads(frag.read_text()):
-            if e.get("property") == PID and e.get("status") == "known" and e["key"] not in have:
-                rep._known.append(e)
-
-
 def main(argv):
     from concurrent.futures import ThreadPoolExecutor
 
     tier = "thorough" if (argv and argv[0] == "thorough") else "quick"
     rep = Report(PID, tier)
-    _merge_own_findings(rep)
     rep.assumptions = [
         "characters are abstracted to the symbols of Scalars.tla (printable ASCII as itself, named line breaks / controls, classes UNI UDIG USP CSP CTL NPR for the rest); "
         "the real round trip is additionally compared on the python objects (deep typed equality) and must agree with TLC's verdict on every observation",
